@@ -18,7 +18,7 @@ CHECKS.update({
     note=R1NOTE,
     technique='differential + metamorphic property-based testing (Hypothesis) and exhaustive product enumeration against a reference ASI implementation'),
  'C05': dict(
-    text='Exhaustive enumeration of a slash-context product (151 preceding constructs x 11 layouts x 6 continuations, all run in both tiers) plus grammar-derived programs weighted towards /, /= and regex literals; the reference lexer receives the goal symbol from its parser as the specification defines, calmjs must agree on acceptance and on the tree (which spells each regex and division).',
+    text='Exhaustive enumeration of a slash-context product (226 preceding constructs x 11 layouts x 6 continuations x 10 nesting contexts) plus grammar-derived programs weighted towards /, /= and regex literals; the reference lexer receives the goal symbol from its parser as the specification defines, calmjs must agree on acceptance and on the tree (which spells each regex and division).',
     note=R1NOTE,
     technique='differential testing against a goal-symbol-driven reference lexer/parser: exhaustive product enumeration + Hypothesis'),
  'C06': dict(
